@@ -184,6 +184,73 @@ def restoreTrees (s : Str) (j : Ser) (getTree getData : Id → Option Bytes) (or
     | none => none
     | some nodes => nodes.mapM (restoreNode getData order (restoreTrees s j getTree getData order fuel))
 
+/-! ### reading a snapshot BY PATH (`Tree::node_from_path`: `snapshot:path`, `Repository::node_from_path`, `Vfs`) -/
+
+/-- the search in one tree: `nodes.into_iter().find(|node| node.name() == p)` (`findNode`).
+One round of the loop of `Tree::node_from_path`: the subtree of the current node is loaded (`Tree::from_backend`) and
+searched LINEARLY (`nodes.into_iter().find(|node| node.name() == p)`) for the first node whose UN-ESCAPED name (`Node::name()`,
+the name `loadTree` puts into the node) is the path component; `none` = "not a directory" / "not found in tree" -/
+def findNode (nodes : List Node) (p : Name) : Option Node := nodes.find? (fun n => n.name == p)
+
+def lookupStep (s : Str) (j : Ser) (getTree : Id → Option Bytes) (node : Node) (p : Name) : Option Node :=
+  match node.subtree with
+  | none => none
+  | some id =>
+    match loadTree s j getTree id with
+    | none => none
+    | some nodes => findNode nodes p
+
+/-- the loop over the (normal) components of the path -/
+def lookupFrom (s : Str) (j : Ser) (getTree : Id → Option Bytes) : Node → List Name → Option Node
+  | node, [] => some node
+  | node, p :: ps =>
+    match lookupStep s j getTree node p with
+    | none => none
+    | some n => lookupFrom s j getTree n ps
+
+/-- the node `node_from_path` starts with: a nameless directory whose subtree is the root tree -/
+def rootNode (id : Id) : Node := { name := [], kind := .dir, md := default, subtree := some id }
+
+/-- `Tree::node_from_path(be, index, id, path)` -/
+def lookupPath (s : Str) (j : Ser) (getTree : Id → Option Bytes) (id : Id) (path : List Name) : Option Node :=
+  lookupFrom s j getTree (rootNode id) path
+
+def STree.children : STree → List STree
+  | .leaf _ _ => []
+  | .dir _ cs => cs
+
+mutual
+/-- the recursive listing of a source forest (what `ls` / `NodeStreamer` shows): every entry with its path -/
+def STree.paths : STree → List (List Name × STree)
+  | .leaf n d => [([n.name], .leaf n d)]
+  | .dir n cs => ([n.name], .dir n cs) :: (pathsL cs).map (fun pt => (n.name :: pt.1, pt.2))
+def pathsL : List STree → List (List Name × STree)
+  | [] => []
+  | t :: ts => t.paths ++ pathsL ts
+end
+
+/-- the entry a path names in a source forest (first sibling of that name, component by component) -/
+def findL : List STree → List Name → Option STree
+  | _, [] => none
+  | ts, [p] => ts.find? (fun t => t.node.name == p)
+  | ts, p :: q :: ps =>
+    match ts.find? (fun t => t.node.name == p) with
+    | none => none
+    | some t => findL t.children (q :: ps)
+
+/-- the seeded variant (C01-5): binary search (`slice::binary_search_by`) for the ESCAPED component among the escaped names of
+the tree (kept only for the witness that it is not the linear search: trees are sorted by the un-escaped name) -/
+def bsearch (names : Array (List Char)) (want : List Char) : Nat → Nat → Nat → Option Nat
+  | 0, _, _ => none
+  | fuel + 1, lo, hi =>
+    if lo < hi then
+      let mid := lo + (hi - lo) / 2
+      match compareOfLessAndEq (names.getD mid []) want with
+      | .eq => some mid
+      | .lt => bsearch names want fuel (mid + 1) hi
+      | .gt => bsearch names want fuel lo mid
+    else none
+
 mutual
 def STree.depth : STree → Nat
   | .leaf _ _ => 0
